@@ -96,14 +96,18 @@ def _mk_sampler(env, skind, sh, n, filt):
     raise ValueError(skind)
 
 
-def sampler_case(skind, name, mk, info, n, k, filt, static=False, second_k=None):
-    cname = "sampler/%s/%s/n%d/k%d%s%s%s" % (skind, name, n, k, "/filter" if filt else "", "/static" if static else "",
-                                           "/then_k%d" % second_k if second_k is not None else "")
+def sampler_case(skind, name, mk, info, n, k, filt, static=False, second_k=None, extra_var=False):
+    """extra_var: the parameter rows carry one more variable ('zz') the domain does not depend on (what a nested product
+    of three samplers hands to its innermost factor); rows may agree in the needed variable and differ in that one"""
+    cname = "sampler/%s/%s/n%d/k%d%s%s%s%s" % (skind, name, n, k, "/filter" if filt else "", "/static" if static else "",
+                                             "/then_k%d" % second_k if second_k is not None else "", "/extra_parameter_variable" if extra_var else "")
 
     def body(env):
         sh = mk(SH.ConcShapeEnv(env))
         pv = sh.pvars if sh.pvars else [("q", 1)]
-        P, rows = SH.params(env, sh.pvars, k)
+        if extra_var:
+            pv = list(sh.pvars) + [("zz", 1)]
+        P, rows = SH.params(env, pv if extra_var else sh.pvars, k)
         for prm in rows:
             env.assume(sh.oset.positive(prm, env.L))
         s = _mk_sampler(env, skind, sh, n, filt)
@@ -271,14 +275,18 @@ def algebra_case(op, ka, kb, na, nb, k=0, grid_a=False, dep=False):
                 max_paths=40, max_forks_per_site=3, check_obligations=False)
 
 
-def data_case(k, three_d):
-    cname = "sampler/data/%s/k%d" % ("3d" if three_d else "2d", k)
+def data_case(k, three_d, second_call=False):
+    """second_call: the sampler was already asked once with OTHER parameter rows (same number of rows)"""
+    cname = "sampler/data/%s/k%d%s" % ("3d" if three_d else "2d", k, "/second_call_other_parameters" if second_call else "")
     n = 2
 
     def body(env):
         shape = (n, 2, 2) if three_d else (n, 2)
         data = env.tensor("data", shape)
         s = tp.samplers.DataSampler({"x": data})
+        if second_call:
+            P0, _ = SH.params(env, [("t", 1)], k, tag="prm0")
+            s.sample_points(P0)
         P, rows = (Points.empty(), [{}]) if k == 0 else SH.params(env, [("t", 1)], k)
         pts = s.sample_points(P)
         t = pts.as_tensor
@@ -307,7 +315,7 @@ def data_case(k, three_d):
         if k == 0:
             yield "len_equals_rows", o["len"] == n
 
-    return Case(cname, body, goals, family="sampler/data", params=dict(k=k, three_d=three_d), check_obligations=False)
+    return Case(cname, body, goals, family="sampler/data", params=dict(k=k, three_d=three_d, second_call=second_call), check_obligations=False)
 
 
 def cases(tier):
@@ -349,7 +357,11 @@ def cases(tier):
             if name in (("Interval", "Interval[t]") if quick else ("Interval", "Interval[t]", "Circle", "Circle[t]")):
                 cs.append(sampler_case(skind, name, mk, info, 2, 2, True))
                 cs.append(sampler_case(skind, name, mk, info, 2, 0 if not dep else 1, True))
+        if name in ("Interval[t]", "Circle[t]"):
+            for skind in ("grid", "random"):
+                cs.append(sampler_case(skind, name, mk, info, 2, 2, False, extra_var=True))
         if name in ("Interval", "Circle"):
+            cs.append(sampler_case("grid", name, mk, info, 2, 2, False, extra_var=True))
             for skind in ("gauss", "lhs", "brandom", "bgrid"):
                 cs.append(sampler_case(skind, name, mk, info, 2, 0, False))
                 cs.append(sampler_case(skind, name, mk, info, 2, 2, False))
@@ -368,4 +380,6 @@ def cases(tier):
     for k in (0, 2):
         cs.append(data_case(k, False))
         cs.append(data_case(k, True))
+        if k:
+            cs.append(data_case(k, False, second_call=True))
     return cs
